@@ -308,6 +308,8 @@ pub enum Mutation {
     ChallengeStorm(Index, u8),
     PreQueue,
     DropGroup(Index),
+    /// replace a run of ASCII digits (or its UTF-16BE form) by an extreme decimal number
+    Decimal(Index, Index, Index),
 }
 
 fn extreme_u8() -> impl Strategy<Value = u8> { prop_oneof![prop::sample::select(vec![0u8, 1, 2, 0x0A, 0x1B, 0x41, 0x7F, 0x80, 0x81, 0xFE, 0xFF]), any::<u8>()] }
@@ -339,6 +341,7 @@ pub fn mutation(extreme_bias: bool) -> impl Strategy<Value = Mutation> {
         1 => (ix(), 1u8..6).prop_map(|(a, n)| Mutation::ChallengeStorm(a, n)),
         1 => Just(Mutation::PreQueue),
         1 => ix().prop_map(Mutation::DropGroup),
+        w => (ix(), ix(), ix()).prop_map(|(a, b, c)| Mutation::Decimal(a, b, c)),
     ]
 }
 
@@ -504,6 +507,37 @@ fn apply(rec: &mut Recording, tcp_bytes: &mut Vec<Vec<u8>>, pre: &mut bool, m: &
                     rec.udp.insert(i + 1, g);
                 }
             }
+        }
+        Mutation::Decimal(a, b, c) => {
+            const NUMS: [&str; 16] = [
+                "0", "-1", "1", "255", "256", "65535", "65536", "2147483647", "2147483648", "4294967295", "4294967296", "99999999", "1000000000000",
+                "18446744073709551615", "99999999999999999999999", "-2147483649",
+            ];
+            with_buf(a, &mut |d| {
+                // runs of ASCII digits
+                let mut runs: Vec<(usize, usize)> = Vec::new();
+                let mut i = 0;
+                while i < d.len() {
+                    if d[i].is_ascii_digit() {
+                        let st = i;
+                        while i < d.len() && d[i].is_ascii_digit() {
+                            i += 1;
+                        }
+                        runs.push((st, i));
+                    } else {
+                        i += 1;
+                    }
+                }
+                if runs.is_empty() {
+                    return;
+                }
+                let (st, en) = runs[b.index(runs.len())];
+                let n = NUMS[c.index(NUMS.len())].as_bytes();
+                // UTF-16BE text has a zero byte before every digit
+                let wide = st > 0 && d[st - 1] == 0 && en - st == 1;
+                let repl: Vec<u8> = if wide { n.iter().flat_map(|x| [*x, 0u8]).collect::<Vec<u8>>()[.. n.len() * 2 - 1].to_vec() } else { n.to_vec() };
+                d.splice(st .. en, repl);
+            })
         }
         Mutation::PreQueue => *pre = true,
         Mutation::DropGroup(a) => {
@@ -697,6 +731,10 @@ impl Prop for C01 {
 
     fn id(&self) -> &'static str { "C01" }
 
+    fn isolate(&self) -> bool { true }
+
+    fn hang_secs(&self) -> u64 { 20 }
+
     fn rule(&self) -> String {
         "reply scripts x entry points x settings. Entry points: the protocol functions (valve with 8 engine classes and 9 gather-toggle pairs, GameSpy 1/2/3 query and \
          query_vars, Quake 1/2/3, Unreal 2 with toggles, Minecraft auto/java/bedrock/legacy/legacy-specific, FFOW, Savage 2, JC2-MP, Mindustry, The Ship, Battalion 1944, \
@@ -736,6 +774,121 @@ impl Prop for C01 {
             o.fail(
                 format!("C01|runaway|{}", case.entry.sig_name()),
                 json!({"entry": case.entry, "operations": run.log.len(), "wire_head": render_log(&run.log[.. run.log.len().min(30)])}),
+            );
+        }
+        o
+    }
+}
+
+pub struct C13;
+
+pub const CAP_LIVE: usize = 64 << 20;
+pub const CAP_REQUEST: usize = 16 << 20;
+
+impl Prop for C13 {
+    type Case = HCase;
+
+    fn id(&self) -> &'static str { "C13" }
+
+    fn isolate(&self) -> bool { true }
+
+    fn hang_secs(&self) -> u64 { 20 }
+
+    fn rule(&self) -> String {
+        "the reply scripts and entry points of C01, re-weighted so that 16- and 32-bit positions of otherwise valid replies are overwritten with extreme values (0, 1, \
+         0x7FFF.., 0x8000.., 0xFFFF.., in either byte order) three times as often. A counting global allocator (per-thread counters armed around the query) is the oracle: \
+         peak live bytes <= 64 MiB and largest single request <= 16 MiB (requests >= 256 MiB are served from an unreserved mapping so that they are recorded instead of \
+         aborting the process), and sends <= (retries+1)*8 + 2*datagrams received + 8. The call site of an oversized request is taken from a backtrace captured inside \
+         the allocator. non-trivial = the client received at least one non-empty reply and allocated at all; distinct = digest of (entry, script)"
+            .into()
+    }
+
+    fn assumptions(&self) -> Vec<String> {
+        vec![
+            "allocations of the harness's own transport (copies of the scripted datagrams, the event log) are counted too; scripts are at most a few MiB".into(),
+            "memory requested by other threads or mapped by the OS is invisible; stack use is not measured".into(),
+        ]
+    }
+
+    fn random_cases(&self, tier: Tier) -> u64 { tier.pick(200_000, 8_000_000) }
+
+    fn strategy(&self, _tier: Tier) -> BoxedStrategy<HCase> { hcase(true) }
+
+    fn enumerated<'a>(&'a self, _tier: Tier, shard: usize, _nshards: usize) -> Box<dyn Iterator<Item = HCase> + 'a> {
+        if shard != 0 {
+            return Box::new(std::iter::empty());
+        }
+        // decompression: declared sizes and real bzip2 bombs in a compressed split reply to the players request
+        let info = b"\xFF\xFF\xFF\xFF\x49\x11name\0map\0folder\0game\0\x0a\x00\x01\x10\x00dl\x00\x00v1\0".to_vec();
+        let mut out = Vec::new();
+        let small = crate::bz2::compress(b"\xFF\xFF\xFF\xFF\x44\x00", 9);
+        let bomb = crate::bz2::compress(&vec![0u8; 120 << 20], 9);
+        let mut variants: Vec<(&str, u32, Option<Vec<u8>>)> = vec![("declared-4GiB-tiny-stream", 0xFFFF_FFFF, small.clone()), ("declared-1GiB-tiny-stream", 1 << 30, small)];
+        variants.push(("declared-4GiB-bomb", 0xFFFF_FFFF, bomb.clone()));
+        variants.push(("declared-120MiB-bomb", 120 << 20, bomb));
+        for (name, declared, body) in variants {
+            let Some(body) = body else { continue };
+            // one compressed fragment: header, id with the compression bit, total 1, number 0, size, declared size, crc
+            let mut frags = Vec::new();
+            let chunk = 6000usize;
+            let total = body.len().div_ceil(chunk).max(1);
+            for (n, part) in body.chunks(chunk).enumerate() {
+                let mut d = vec![0xFE, 0xFF, 0xFF, 0xFF];
+                d.extend_from_slice(&0x8000_0001u32.to_le_bytes());
+                d.push(total as u8);
+                d.push(n as u8);
+                d.extend_from_slice(&1248u16.to_le_bytes());
+                if n == 0 {
+                    d.extend_from_slice(&declared.to_le_bytes());
+                    d.extend_from_slice(&0u32.to_le_bytes());
+                }
+                d.extend_from_slice(part);
+                frags.push(hex(&d));
+            }
+            out.push(HCase {
+                entry: Entry::Valve { engine: crate::models::valve::EngineSel::SourceNone, players: 2, rules: 0, check: false },
+                retries: 0,
+                udp_at_open: vec![],
+                udp: vec![vec![hex(&info)], frags],
+                tcp: vec![],
+                source: format!("decompression:{name}"),
+            });
+        }
+        Box::new(out.into_iter())
+    }
+
+    fn run(&self, case: &HCase) -> Outcome {
+        let mut o = Outcome::new();
+        o.label(format!("entry={}", case.entry.label()));
+        if case.source.starts_with("decompression") {
+            o.label(case.source.clone());
+        }
+        let run = run_hostile(case);
+        let site = crate::alloc::take_site();
+        let a = run.alloc;
+        o.nontrivial = reached_parser(&run) && a.requests > 0;
+        o.label(match a.max_request {
+            0 ..= 65_535 => "max-request<64KiB",
+            65_536 ..= 1_048_575 => "max-request<1MiB",
+            1_048_576 ..= 16_777_215 => "max-request<16MiB",
+            _ => "max-request>=16MiB",
+        });
+        let sends = run.n_sends();
+        let bound = (case.retries as usize + 1) * 8 + 2 * run.n_recv_data() + 8;
+        if a.max_request > CAP_REQUEST {
+            o.fail(
+                format!("C13|single request > 16 MiB|{}", site.clone().unwrap_or_else(|| "<unknown site>".into())),
+                json!({"entry": case.entry, "alloc": a, "site": site, "script_bytes": script_bytes(case), "wire": render_log(&run.log[.. run.log.len().min(30)])}),
+            );
+        } else if a.peak_live > CAP_LIVE {
+            o.fail(
+                format!("C13|peak live > 64 MiB|{}", case.entry.sig_name()),
+                json!({"entry": case.entry, "alloc": a, "script_bytes": script_bytes(case), "wire": render_log(&run.log[.. run.log.len().min(30)])}),
+            );
+        } else if sends > bound || run.runaway {
+            o.fail(
+                format!("C13|sends not bounded by retries and replies|{}", case.entry.sig_name()),
+                json!({"entry": case.entry, "sends": sends, "bound": bound, "received": run.n_recv_data(), "wire": render_log(&run.log[.. run.log.len().min(30)])}),
             );
         }
         o
